@@ -376,6 +376,10 @@ def check_operator_after_swap(led, mpo, D0, D1, dims, i, jw, key, fields, rep, v
 def worker_swap(case, led):
     from renormalizer.mps import Mpo
     _, family, n, jw, seed, tier = case
+    # "<family>@qr": operator built and exchanged with the QR algorithm (the closing factor of a swap is not 1 there) instead of the default graph algorithm
+    akw = {}
+    if family.endswith("@qr"):
+        family, akw = family[:-3], {"algo": "qr"}
     rng = _rng(seed, "swap", family, n)
     model, sectors, info = build_model(family, n, rng)
     ref_dofs = [b.dofs[0] for b in model.basis]
@@ -391,12 +395,12 @@ def worker_swap(case, led):
         base_rep.update(h=jarr(info["h"]), eri=jarr(info["eri"]))
     else:
         base_rep.update(terms=[repr(t) for t in model.ham_terms])
-    m0 = Mpo(model)
+    m0 = Mpo(model, **akw)
     if not close(S.dense(m0), H0, scale):
         raise RuntimeError("premise: dense(Mpo(model)) differs from the independent dense Hamiltonian (Part 1 / C03 territory)")
     # no-op call
     keep = S.dense(m0)
-    m0.try_swap_site(swapped_model(model, model.basis), jw)
+    m0.try_swap_site(swapped_model(model, model.basis), jw, **akw)
     led.check(close(S.dense(m0), keep, scale), "post:Mpo.try_swap_site:noop_for_same_order", "Mpo.try_swap_site", "operator changed although the order is the same",
               ("swap", family, n, jw, "noop"), fields, base_rep, False)
     seqs = [s for L in (1, 2, 3) for s in itertools.product(range(n - 1), repeat=L)]
@@ -405,7 +409,7 @@ def worker_swap(case, led):
         sel = list(range(n - 1)) + sorted(rng.choice(np.arange(n - 1, len(seqs)), size=limit - (n - 1), replace=False).tolist())
         seqs = [seqs[j] for j in sel]
     for seq in seqs:
-        mpo = Mpo(model)
+        mpo = Mpo(model, **akw)
         basis = list(model.basis)
         D_prev = H0
         key = ("swap", family, n, jw, seq)
@@ -419,7 +423,7 @@ def worker_swap(case, led):
             before_arrays = [np.array(np.asarray(mpo[j].array)) for j in range(n)]
             before_qn = [np.array(q) for q in mpo.qn]
             try:
-                mpo.try_swap_site(nm, jw)
+                mpo.try_swap_site(nm, jw, **akw)
             except Exception as ex:
                 report_exception(led, ex, "total:Mpo.try_swap_site:no_exception", "Mpo.try_swap_site", key + (step,), fields, rep, "direct")
                 failed = True
@@ -874,6 +878,8 @@ def enumerate_cases(tier, seed):
                 if fam == "qc_noqn" and n == 6:
                     continue
                 cases.append(("swap", fam, n, jw, seed, tier))
+    for fam, n in (("spinqn@qr", 4), ("vibronic@qr", 4), ("qc_short@qr", 4)):
+        cases.append(("swap", fam, n, False, seed, tier))
     # --- part 3
     seeds = [seed] if quick else [seed, seed + 1, seed + 2]
     for s in seeds:
